@@ -32,7 +32,13 @@ def main():
         extra = ('\nThis is round %s: other people have already tried the most obvious change for this property. Prefer a different code site or '
                  'mechanism than the first one that comes to mind — look through ALL the anchors and the code around them before choosing.\n' % rnd)
         ms = d['anchors'].get('mechanism', [])
-        if rnd.isdigit() and int(rnd) >= 8:
+        if rnd.isdigit() and int(rnd) >= 10:
+            extra += ('Earlier rounds ALSO covered state kept between calls (caches, shared defaults, class attributes). This time avoid caches '
+                      'and shared state. Think instead of: deep nesting / recursion depth, very long or very many items, numeric extremes, '
+                      'rarely used but legal syntax or option combinations, interactions between two features of the format, behaviour at '
+                      'the very first or very last element, iteration order, integer vs byte vs str confusions, error paths that are taken '
+                      'only for particular inputs.\n')
+        elif rnd.isdigit() and int(rnd) >= 8:
             extra += ('Earlier rounds already covered: wrong table entries, off-by-one at size limits, dropped special cases in a single call. '
                       'Prefer a change whose effect needs a HISTORY (state kept between two calls in one process: caches, shared default '
                       'arguments, class attributes, in-place edits of arguments), an unusual but legal ARGUMENT FORM (types, empty values, '
